@@ -113,6 +113,12 @@ CHECKS: dict[str, tuple[str, str, str, str, str]] = {
             "timeout rule, and leftover probes (matching traffic after the end must reach no callback; handler table holds only documented survivors).",
             "runtime monitoring: recorded BLE operation history vs per-operation matching model + post-completion leftover probes",
             "DESIGN.md §4 C16"),
+    "C17": ("S", "exploration",
+            "User callbacks of every subscribe_* method are recorded on live simulated sessions and compared with a one-callback-per-message model "
+            "(value = C14 descriptor-driven expected model), a per-key camera reassembly model over ALL order-preserving interleavings up to 9 "
+            "chunks, and exact reply frames at the device for voice-assistant sequences; unsubscribe at every position of a stream.",
+            "runtime monitoring: callback trace vs one-callback-per-message / camera reassembly models, exhaustive small interleavings",
+            "DESIGN.md §4 C17"),
 }
 
 NOT_YET = {
